@@ -198,8 +198,11 @@ func TestC22(t *testing.T) {
 
 	rapid.Check(t, func(t *rapid.T) {
 		col.Case()
-		// tiny programs too: listings shorter than the minimum height of the view
+		// tiny programs too: listings shorter than the minimum height of the view;
+		// half of the programs contain indirect jumps whose target the prompt decides
+		rvFreeJalr = rapid.Bool().Draw(t, "freeJalrProgram")
 		p := drawRVProgramMin(t, 1, 24)
+		rvFreeJalr = false
 		ui, code, err := newProgramUI(p)
 		if err != nil {
 			t.Fatalf("cannot build UI: %v\n  program %s", err, p)
@@ -210,14 +213,24 @@ func TestC22(t *testing.T) {
 		screen := []int{5, 8, 12, 24, 40, 60}[uniformInt(t, 6, "screen")]
 		lines := 2*code.Len() + code.NumInstr()
 
-		t.Repeat(map[string]func(*rapid.T){
-			"line": func(t *rapid.T) {
+		oneLine := func(t *rapid.T, forced string) {
+			{
 				mode := ui.VerifModeName()
 				modes[modeClass(mode)] = true
 				line, class := drawLine(t, mode, lines)
+				if forced != "" {
+					line, class = forced, modeClass(mode)+"/forced/"+forced
+				}
 				answers := []string{}
 				for i, n := 0, uniformInt(t, 3, "nAnswers"); i < n; i++ {
-					a := []string{"", "5", "xyz", "0x10", "-1", " "}[uniformInt(t, 6, "answer")]
+					a := []string{"", "5", "xyz", "0x10", "-1", " ", "code", "code"}[uniformInt(t, 8, "answer")]
+					if a == "code" {
+						// an address in or next to the code: instruction starts, the middle of
+						// instructions, the end of the code and a little beyond
+						v := rvCodeBase - 4 + uint64(uniformInt(t, 4*len(p.words)+12, "codeOff"))
+						a = fmt.Sprintf([]string{"%d", "0x%x"}[uniformInt(t, 2, "codeFmt")], v)
+						col.Class("answer/code-address")
+					}
 					if endOfSpaceKnown {
 						// keep every answered data pointer at least 4 KiB away from both
 						// ends of the address space (offsets are 12 bit)
@@ -262,6 +275,20 @@ func TestC22(t *testing.T) {
 					t.Fatalf("rendering the screen (%d lines) after %q in mode %s crashed: %s\n  history %s\n  program %s", screen, line, mode, crash, strings.Join(hist, " ; "), p)
 				} else if rerr != nil {
 					col.Class("render-error")
+				}
+			}
+		}
+		t.Repeat(map[string]func(*rapid.T){
+			"line": func(t *rapid.T) { oneLine(t, "") },
+			"steps": func(t *rapid.T) {
+				// several emulation steps in a row so that execution gets somewhere
+				if modeClass(ui.VerifModeName()) != "emulate" {
+					oneLine(t, []string{"emulate", "entrypoint"}[uniformInt(t, 2, "toEmul")])
+					return
+				}
+				for i, n := 0, 1+uniformInt(t, 8, "nSteps"); i < n && modeClass(ui.VerifModeName()) == "emulate"; i++ {
+					col.Case()
+					oneLine(t, []string{"s", "step", "f"}[uniformInt(t, 3, "stepKey")])
 				}
 			},
 		})
